@@ -17,7 +17,9 @@ Premises (DESIGN §6), all visible as hypotheses:
 * sub-chapters: `pop_exact_deep` / `del_exact_deep` hold for every logbook whose chapters are
   aligned at every depth (`DeepAligned`), however deep; that `record` builds such logbooks from
   records with sub-dictionaries is checked by the correspondence harness only.
-* stream theorems: additionally the recorded rows are pairwise different (each record carries its
+* stream theorems: `stream_positional` needs only `Valid`; `stream_at_most_once` /
+  `stream_exactly_once` speak about the delivered rows as VALUES and additionally need the recorded
+  rows to be pairwise different (each record carries its
   own id), so that "delivered once" is observable.  (Alignment matters since F18: on a logbook
   with a misaligned chapter `pop` moves `buffindex` and then raises.)
 * `header_once` holds at full strength, for every history, since the repair of F5 (the stream
@@ -296,6 +298,37 @@ theorem stream_exactly_once (C : List Name) (ops : List Op) (hv : Valid C [] ops
   rw [a1, hB, List.append_nil] at hr
   simpa [delivered, streams] using a5 r hr
 
+/-- The positional form, which needs NO premise on the rows' contents (equal rows allowed).
+`counts ops` keeps, for every surviving record position, how often the stream has delivered it
+(a stream delivers exactly the positions from `buffindex` on, `stream_spec`; a deletion removes
+the counters of the positions it removes).  After any valid history the counters are 1 for the
+first `buffindex` positions and 0 for the rest: no surviving record was ever delivered twice, the
+not yet delivered ones are exactly the suffix from `buffindex` on — which is what the next stream
+delivers — and after a stream every surviving record has been delivered exactly once. -/
+theorem stream_positional (C : List Name) (ops : List Op) (hv : Valid C [] ops) :
+    counts ops = List.replicate (run ops).buffindex 1 ++
+      List.replicate ((run ops).rows.length - (run ops).buffindex) 0 ∧
+    (∀ c ∈ counts ops, c ≤ 1) ∧
+    counts (ops ++ [.stream]) = List.replicate (run ops).rows.length 1 := by
+  have h := history_counts ops (Rep.empty C) hv (cs := []) ⟨by simp [LB.empty], by simp [LB.empty]⟩
+  have hv' : Valid C [] (ops ++ [Op.stream]) := by
+    rw [valid_append]; exact ⟨hv, by simp [Valid, OpOk]⟩
+  have h' := history_counts (ops ++ [.stream]) (Rep.empty C) hv' (cs := [])
+    ⟨by simp [LB.empty], by simp [LB.empty]⟩
+  refine ⟨h.1, ?_, ?_⟩
+  · intro c hc
+    have : c ∈ List.replicate (run ops).buffindex 1 ++
+        List.replicate ((run ops).rows.length - (run ops).buffindex) 0 := h.1 ▸ hc
+    rcases List.mem_append.1 this with hm | hm
+    · rw [List.eq_of_mem_replicate hm]; exact Nat.le_refl _
+    · rw [List.eq_of_mem_replicate hm]; exact Nat.zero_le _
+  · have hrun : runFrom LB.empty (ops ++ [Op.stream]) = (stream (run ops)).2 := by
+      rw [runFrom_append]; rfl
+    obtain ⟨e1, _, e3, _⟩ := stream_state (run ops)
+    have := h'.1
+    rw [hrun, e3, e1] at this
+    simpa [counts] using this
+
 /-! ### The header -/
 
 /-- Reading the stream repeatedly delivers the header at most once — for EVERY history (any
@@ -363,15 +396,13 @@ theorem buffindex_zero_iff (C : List Name) (ops : List Op) (hv : Valid C [] ops)
         exact absurd (by simpa [delivered, streams] using a5 x (by simp [hA])) (h x hx)
     rw [a2, hA]; rfl
 
-/-! ### Pickling -/
+/-! ### Pickling
 
-/-- A logbook survives pickling with all chapters: the round trip is the identity on rows,
-chapters (recursively), stream position and header settings, so every later operation behaves
-the same. -/
-theorem pickle_id (lb : LB) (ops : List Op) :
-    pickle lb = lb ∧ runFrom (pickle lb) ops = runFrom lb ops ∧
-    streamsFrom (pickle lb) ops = streamsFrom lb ops := by
-  rw [pickle_eq]; exact ⟨rfl, rfl, rfl⟩
+Not a theorem: the model's `pickle` is the identity on the state (rows, chapters, buffindex,
+header, log_header, header_streamed), so a Lean statement about it would say `id = id`.  That a
+logbook survives `pickle.dumps` / `loads` with all chapters is established by the correspondence
+harness only (every history may pickle between any two operations, protocols 0–5, and the
+complete state and all later behaviour are compared). -/
 
 /-! ### Statistics -/
 
@@ -453,6 +484,11 @@ example : (run demoOps).rows = [[(0, 1), (1, 0)], [(0, 4)]] ∧
     delivered demoOps = [[(0, 1), (1, 0)], [(0, 2), (1, 1)], [(0, 4)]] ∧ headerCount demoOps = 1 := by
   decide
 example : (recordedOf demoOps).Nodup := by decide
+-- the delivery counters of `demoOps` (two surviving records, both delivered once); with EQUAL rows
+-- the value-based theorems do not apply but the positional one does
+example : counts demoOps = [1, 1] ∧
+    counts [.record (.mk [(1, 5)] []), .record (.mk [(1, 5)] []), .stream, .record (.mk [(1, 5)] [])] = [1, 1, 0] := by
+  decide
 -- a logbook with chapter 10 and sub-chapter 20, aligned at every depth; `pop(-1)` and a slice
 -- deletion reach the sub-chapter
 def deepLB : LB := run [.record (.mk [(0, 1)] [(10, .mk [(5, 7)] [(20, .mk [(6, 1)] [])])]),
